@@ -461,9 +461,6 @@ impl Deb822 {
     /// Converts the perceptual paragraph index to the node index.
     fn convert_index(&self, index: usize) -> Option<usize> {
         let mut current_pos = 0usize;
-        if index == 0 {
-            return Some(0);
-        }
         for (i, node) in self.0.children_with_tokens().enumerate() {
             if node.kind() == PARAGRAPH {
                 if current_pos == index {
